@@ -199,6 +199,10 @@ fn run_case_inner(case: &Case, rep: &mut Report) -> Option<(String, String)> {
             for s in padded_spellings(v, prefix, &bytes) {
                 spellings.push(("nonzero_padding", s));
             }
+            // the address with white space or a NUL around it: another string
+            for (pre, post) in [(" ", ""), ("", " "), ("", "\n"), ("\t", ""), ("", "\u{0}"), ("\u{a0}", "")] {
+                spellings.push(("surrounded_by_white_space", format!("{}{}{}", pre, reference, post)));
+            }
             for (what, s) in spellings {
                 match api.addr_validate(&s) {
                     Ok(a) if a.as_str() == s => rep.bump(&format!("c18/observation/{}_accepted_unchanged", what)),
